@@ -78,6 +78,7 @@ fn uri_of(k: &str, n: usize) -> String {
         "deep2" => "/s/3%20x/r/4".into(),
         "flat" => "/flat".into(),
         "miss" => format!("/nowhere/{n}"),
+        "smiss" => "/s/5/unknown".into(),
         "tail" => "/t/a/b/c".into(),
         "q" => "/s/9/q".into(),
         _ => "/flat".into(),
